@@ -1,0 +1,144 @@
+//go:build verif
+
+package tlcp
+
+import (
+	"bytes"
+	"errors"
+	"io"
+
+	"github.com/emmansun/gmsm/sm3"
+)
+
+// Verification hooks for the key schedule and the record protection (build tag `verif`
+// only, add-only). They call the unexported functions unchanged so that an independent
+// implementation can be compared with them on chosen inputs.
+
+// VerifPHash runs pHash with HMAC-SM3 for an n-byte result.
+func VerifPHash(secret, seed []byte, n int) []byte {
+	out := make([]byte, n)
+	pHash(out, secret, seed, sm3.New)
+	return out
+}
+
+// VerifPRF runs the PRF that suite id selects for TLCP.
+func VerifPRF(id uint16, secret, label, seed []byte, n int) []byte {
+	out := make([]byte, n)
+	prfForVersion(VersionTLCP, cipherSuites[id])(out, secret, label, seed)
+	return out
+}
+
+// VerifMaster is masterFromPreMasterSecret.
+func VerifMaster(id uint16, pre, clientRandom, serverRandom []byte) []byte {
+	return masterFromPreMasterSecret(VersionTLCP, cipherSuites[id], pre, clientRandom, serverRandom)
+}
+
+// VerifKeys is keysFromMasterSecret with the lengths of suite id.
+func VerifKeys(id uint16, master, clientRandom, serverRandom []byte) (clientMAC, serverMAC, clientKey, serverKey, clientIV, serverIV []byte) {
+	s := cipherSuites[id]
+	_, clientMAC, serverMAC, clientKey, serverKey, clientIV, serverIV =
+		keysFromMasterSecret(VersionTLCP, s, master, clientRandom, serverRandom, s.macLen, s.keyLen, s.ivLen)
+	return
+}
+
+// VerifFinishedSums feeds transcript to a finishedHash of suite id and returns clientSum and serverSum.
+func VerifFinishedSums(id uint16, master, transcript []byte) (client, server []byte) {
+	h := newFinishedHash(VersionTLCP, cipherSuites[id])
+	h.Write(transcript)
+	return h.clientSum(master), h.serverSum(master)
+}
+
+// VerifRecordConn is a Conn without a transport whose record layer can be driven directly.
+type VerifRecordConn struct {
+	c *Conn
+}
+
+// VerifNewRecordConn installs the cipher of suite id for both directions the way
+// establishKeys + changeCipherSpec do (out: not for reading, in: for reading) from the given
+// key material. rnd is what config.rand() returns (explicit CBC IVs are read from it).
+func VerifNewRecordConn(id uint16, key, iv, mac []byte, rnd io.Reader) (*VerifRecordConn, error) {
+	s := cipherSuites[id]
+	if s == nil {
+		return nil, errors.New("unknown suite")
+	}
+	c := &Conn{config: &Config{Rand: rnd, DynamicRecordSizingDisabled: true}, vers: VersionTLCP, haveVers: true, buffering: true}
+	if s.aead != nil {
+		c.out.prepareCipherSpec(VersionTLCP, s.aead(key, iv), nil)
+		c.in.prepareCipherSpec(VersionTLCP, s.aead(key, iv), nil)
+	} else {
+		c.out.prepareCipherSpec(VersionTLCP, s.cipher(key, iv, false), s.mac(mac))
+		c.in.prepareCipherSpec(VersionTLCP, s.cipher(key, iv, true), s.mac(mac))
+	}
+	if err := c.out.changeCipherSpec(); err != nil {
+		return nil, err
+	}
+	if err := c.in.changeCipherSpec(); err != nil {
+		return nil, err
+	}
+	return &VerifRecordConn{c}, nil
+}
+
+func verifPutSeq(dst *[8]byte, seq uint64) {
+	for i := 7; i >= 0; i-- {
+		dst[i] = byte(seq)
+		seq >>= 8
+	}
+}
+
+// SetDynamicRecordSizing switches the TCP-friendly record sizing of Write back on.
+func (v *VerifRecordConn) SetDynamicRecordSizing(on bool) {
+	v.c.config.DynamicRecordSizingDisabled = !on
+}
+
+// WriteRecord sets the write sequence number and runs the real writeRecordLocked; it
+// returns the bytes that would have gone to the transport (one or more records) and the
+// sequence number afterwards.
+func (v *VerifRecordConn) WriteRecord(seq uint64, typ byte, payload []byte) (wire []byte, next uint64, err error) {
+	c := v.c
+	verifPutSeq(&c.out.seq, seq)
+	c.sendBuf = nil
+	c.buffering = true
+	c.out.Lock()
+	_, err = c.writeRecordLocked(recordType(typ), payload)
+	c.out.Unlock()
+	wire = append([]byte(nil), c.sendBuf...)
+	c.sendBuf = nil
+	for _, b := range c.out.seq {
+		next = next<<8 | uint64(b)
+	}
+	return
+}
+
+// Encrypt calls halfConn.encrypt on a 5-byte header (type, version, length of payload).
+func (v *VerifRecordConn) Encrypt(seq uint64, typ byte, vers uint16, payload []byte) ([]byte, error) {
+	c := v.c
+	verifPutSeq(&c.out.seq, seq)
+	hdr := []byte{typ, byte(vers >> 8), byte(vers), byte(len(payload) >> 8), byte(len(payload))}
+	return c.out.encrypt(hdr, payload, c.config.rand())
+}
+
+// Decrypt calls halfConn.decrypt on a complete record with the read sequence number set.
+// alert is 0 on success, the alert value otherwise (-1 for a non-alert error).
+func (v *VerifRecordConn) Decrypt(seq uint64, record []byte) (plaintext []byte, typ byte, alertCode int) {
+	c := v.c
+	verifPutSeq(&c.in.seq, seq)
+	rec := append([]byte(nil), record...)
+	pt, t, err := c.in.decrypt(rec)
+	if err != nil {
+		if a, ok := err.(alert); ok {
+			return nil, 0, int(a)
+		}
+		return nil, 0, -1
+	}
+	return append([]byte(nil), pt...), byte(t), 0
+}
+
+// MaxPayload is the real maxPayloadSizeForWrite for a record of type typ.
+func (v *VerifRecordConn) MaxPayload(typ byte) int {
+	return v.c.maxPayloadSizeForWrite(recordType(typ))
+}
+
+// VerifConnFinished returns the verify_data values of the last handshake and whether it resumed.
+func VerifConnFinished(c *Conn) (client, server []byte, resumed bool, suite uint16) {
+	return bytes.Clone(c.clientFinished[:]), bytes.Clone(c.serverFinished[:]), c.didResume, c.cipherSuite
+}
